@@ -2,7 +2,7 @@ SPECIFICATION Spec
 CONSTANTS
   Depth = 1
   FaultLines = {1, 2, 3, 4, 5}
-  AtomSet = {"", "abc", "ñ€", "NaN", "inf", "-inf", "1e39", "-0", "1e-46", "007", "+1", "1.", "#", "CONSUMO", "SALIDA", "DEMANDA", "AUX", "COGEN", "EL_COGEN", "vector", "<FF>"}
+  AtomSet = {"", "abc", "<NA>", "NaN", "inf", "-inf", "1e39", "-0", "1e-46", "007", "+1", "1.", "#", "CONSUMO", "SALIDA", "DEMANDA", "AUX", "COGEN", "EL_COGEN", "vector", "<FF>"}
   SoupLen = 3
 INVARIANTS Emit
 CHECK_DEADLOCK FALSE
